@@ -448,6 +448,18 @@ def handle (toks : List String) (impl : String) : Verdict :=
       if !malformedDelivered then none else
       f.results.findSome? fun (rid, res) =>
         if (res.startsWith "ok:" || res.startsWith "ack:") && !(wellFormedBefore.contains res) then some rid else none
+    -- the schedule ended quiescent: nothing was observed during its last two actions (a long picture
+    -- with a small chunk limit can outlast the generator's drain rounds: that is not a hang)
+    let quietEnd : Bool :=
+      let segs := implSegs.take (implSegs.length - 1)
+      segs.length ≥ 2 && (segs.drop (segs.length - 2)).all (· == "-")
+    -- C13: an empty typed list yields an empty result whatever the state of the connection
+    let emptyTypedBad : Option Nat :=
+      typedReqs.findSome? fun (rid, names) =>
+        if !names.isEmpty then none else
+        match f.results.find? (·.1 == rid) with
+        | some (_, res) => if res == "typed:" then none else some rid
+        | none => none
     -- C13 framing, seen from the server: a typed list of n >= 2 commands arrived as one command list
     -- holding exactly the n `echo` lines in order, a list of one command as that bare command
     let typedFramingBad : Option Nat :=
@@ -483,7 +495,7 @@ def handle (toks : List String) (impl : String) : Verdict :=
       else if on "C08" && f.closings > 1 then "fail:C08-more-than-one-closing-event"
       else if on "C08" && f.afterEnd then "fail:C08-activity-after-the-end"
       else if on "C05" && honest && !f.sv.violations.isEmpty then "fail:C05-line-written-while-server-idles"
-      else if (on "C05" || on "C01" || on "C17" || on "C07") && password.isNone && strangerBlock then "fail:C05-request-line-that-no-caller-issued"
+      else if (on "C05" || on "C01" || on "C17" || on "C07" || prop == "C06") && password.isNone && strangerBlock then "fail:C05-request-line-that-no-caller-issued"
       else if prop == "C07" && honest && !f.wblockSeen && !f.readEnds && !f.writes.isEmpty && f.writes.getLast? != some LF then
         "fail:C07-request-cut-in-the-middle-of-a-line"
       else if prop == "C06" && pwLineBad then "fail:C06-password-argument-not-read-back-by-the-server"
@@ -494,6 +506,7 @@ def handle (toks : List String) (impl : String) : Verdict :=
       else if on "C05" && honest && connectedOk && password.isNone && !(startsWith f.writes (str "idle\n")) && !f.writes.isEmpty then "fail:C05-first-write-not-idle"
       else if on "C18" && password.isSome && !f.writes.isEmpty && !(startsWith f.writes (password.getD [])) then "fail:C18-password-not-first"
       else if on "C18" && (match f.connect with | some "badpw" => f.writes != password.getD [] | _ => false) then "fail:C18-wrote-after-rejected-password"
+      else if on "C13" && emptyTypedBad.isSome then s!"fail:C13-empty-typed-list-did-not-yield-an-empty-result-{emptyTypedBad.getD 0}"
       else if on "C01" && inventedReply.isSome then s!"fail:C01-reply-the-server-never-sent-{inventedReply.getD 0}"
       else match checkResults with
       | some e =>
@@ -523,6 +536,7 @@ def handle (toks : List String) (impl : String) : Verdict :=
             !(f.droppedSeen && (f.evend || f.evDropped)) then "fail:C08-last-handle-dropped-but-connection-kept"
         else if on "C05" && honest && connectedOk && !f.dropMain && !f.sv.idle then "fail:C05-not-idling-at-quiescence"
         else if on "C01" && honest && connectedOk && !f.dropMain && !pendImpl.isEmpty then "fail:C01-request-never-answered"
+        else if prop == "C17" && honest && connectedOk && !f.dropMain && !pendImpl.isEmpty && quietEnd then "fail:C17-album-art-never-returned"
         else "ok"
     let cls := "-"
     let branch :=
